@@ -747,8 +747,7 @@ def clientCheckCertReq (sel : Selection) : Outcome Unit :=
 def clientAccept13 (cs : Settings) (cc : ClientCfg) (sc : ServerCfg) (o : Offer) (sel : Selection) :
     Outcome Params := do
   let v := sel.version
-  -- the ServerHello of TLS 1.3 never carries extended_master_secret
-  failIf (cs.requireEMS) .client "insufficient_security"
+  -- (requireExtendedMasterSecret is enforced below TLS 1.3 only: the extension is not used there)
   -- after a HelloRetryRequest the group must be one we advertised
   failIf (sel.group != 0 && sel.hrr && !(o.groups.getD []).contains sel.group) .client "illegal_parameter"
   failIf (sel.rslEcho != 0 && cs.recordSizeLimit == 0) .client "illegal_parameter"
@@ -759,6 +758,9 @@ def clientAccept13 (cs : Settings) (cc : ClientCfg) (sc : ServerCfg) (o : Offer)
   -- client certificate
   let useCert : Option Cred := if sel.certReq.isSome then cc.cred else none
   let cSig ← clientSig13 cs useCert sel
+  -- the ALPN reply in EncryptedExtensions: we must have sent ALPN and the name must be one of ours
+  failIf (sel.alpn != "" && o.alpn.isEmpty) .client "unsupported_extension"
+  failIf (sel.alpn != "" && !o.alpn.contains sel.alpn) .client "illegal_parameter"
   pure { version := v, suite := sel.suite, group := sel.group, dhBits := 0, sigScheme := sel.sigScheme
          etm := false, ems := true, alpn := sel.alpn, serverName := o.serverName
          cSend := cSend, cRecv := cRecv, sSend := sel.sSend, sRecv := sel.sRecv
